@@ -56,7 +56,6 @@ package hack
 //@   assigns post(b), delivered(c.tlsConn), c.buf.view, c.expectedLen
 //@   ensures [C04,C01,C02:inv] inv(c)
 //@   ensures [C04,C01,C02:transparent] 0 <= n && n <= len(b) && delivered(c.tlsConn) == old(delivered(c.tlsConn)) ++ post(b)[:n]
-//@   ensures [C04,C01,C02:error-delivers-nothing] err != nil ==> n == 0 && delivered(c.tlsConn) == old(delivered(c.tlsConn))
 
 //@ func NewHijackClientHelloConn :: conn -> c
 //@   props C04,C06
